@@ -82,6 +82,9 @@ func (r *defaultSingletonComponentRegistry) GetSingletonOrCreateByFactory(name s
 	r.logger().Tracef("create instance of singleton '%s'", name)
 	singleton, err := factory.GetComponent()
 	if err != nil {
+		//nothing of a failed creation may stay visible: drop the in-creation mark,
+		//the early reference and the early-reference factory
+		r.RemoveSingleton(name)
 		return nil, err
 	}
 	r.logger().Tracef("singleton '%s' finished creating", name)
